@@ -64,6 +64,22 @@ theorem sf_no_stale {s : SF.St} (h : SF.Reach s) (r : Ret) (hr : r ∈ s.rets) :
   rw [hlr] at this
   exact this
 
+/-- **Never a retained result** (the property's own wording): a caller is never handed the result of an
+execution whose leading call had already returned when the caller invoked. -/
+theorem sf_never_retained {s : SF.St} (h : SF.Reach s) (r : Ret) (hr : r ∈ s.rets) (lr : Nat)
+    (hl : s.lret r.exec = some lr) (hle : lr ≤ r.inv) : False := by
+  obtain ⟨_, _, hfresh, hjoin⟩ := sf_no_stale h r hr
+  have hinv := ((SF.inv_reach h).rets r hr).2.2.2.1
+  cases hf : r.fresh with
+  | true =>
+    have := (hfresh hf).2.2
+    rw [hl] at this
+    have : lr = r.ret := by simpa using this
+    omega
+  | false =>
+    have := (hjoin hf).2 lr hl
+    omega
+
 /-- **Exactly one fresh caller per execution**: among the returned calls that were handed the result of call
 object `c`, the number reported fresh is 1 once the leading call has returned, and 0 before. -/
 theorem sf_one_fresh {s : SF.St} (h : SF.Reach s) (c : CallId) :
@@ -303,6 +319,13 @@ theorem rm_same_instance {s : RM.St} (h : RM.Reach s) (r : RRet) (hr : r ∈ s.r
   have := hi.r5 r.exec r.val a1 a2 hv
   rw [a3] at this
   exact ⟨this.1, this.2.symm⟩
+
+/-- what a `GetResource` call returns is what the single execution of the closure for its flight returned (its
+own, or the one it shared), and that flight was for its key. -/
+theorem rm_result_is_execution {s : RM.St} (h : RM.Reach s) (r : RRet) (hr : r ∈ s.rets) :
+    s.fnres r.exec = some r.val ∧ s.ekey r.exec = r.key := by
+  have := (RM.inv_reach h).rets r hr
+  exact ⟨this.2.1, this.2.2⟩
 
 /-- the stored instance is that one, too. -/
 theorem rm_stored {s : RM.St} (h : RM.Reach s) (k : Key) (v : Val) (hv : s.res k = some v) :
